@@ -170,8 +170,8 @@ func runC07(c *Ctx) {
 							o := evalSrc(src, copts...)
 							out := outTokens(o)
 							ok := out == "ok:[]" || strings.HasPrefix(out, "err:")
-							if name == "skip" || name == "take" || name == "intersect" || name == "exclude" || name == "combine" || name == "union" || name == "subsetOf" || name == "supersetOf" || name == "join" {
-								ok = ok || strings.HasPrefix(out, "ok:") // collection-valued or defaulted arguments
+							if name == "intersect" || name == "exclude" || name == "combine" || name == "union" || name == "subsetOf" || name == "supersetOf" || name == "join" {
+								ok = ok || strings.HasPrefix(out, "ok:") // collection-valued or defaulted arguments (skip and take need a single Integer: not exempt)
 							}
 							c.Law(ok, "C07/empty-argument-fabricates", "an empty argument where a single value is required yields empty or an error", src, out)
 							c.Count("arg-empty")
